@@ -21,12 +21,13 @@ var anchored = []string{"pkg/dhcp/server.go", "pkg/dhcp/pool.go", "pkg/dhcpv6/se
 
 func TestMain(m *testing.M) {
 	run = vk.Start("C02", "exploration")
-	run.Rule("message histories from k<=4 clients against the real DHCPv4 / DHCPv6 handlers on tiny pools (v4 /30 /29 /28, v6 /126 /125 and 2-8 delegated prefixes), interleaved with virtual-time steps {lease/2, lease+1ns, 61 s cleanup tick; 59 s and 1 s in scenarios and walks}: (1) directed minimal scenarios, (2) breadth-first exhaustive exploration - a 15-symbol core alphabet (2 clients x {DISCOVER/SOLICIT, REQUEST, renew, RELEASE, DECLINE, rapid-commit} + hostile REQUEST for a foreign address / the gateway, DECLINE naming the other client's address + time) and an 18-symbol DHCPv4 / DHCPv6 decline/release alphabet (DECLINE and RELEASE of the own value and naming an address leased to / offered but not acknowledged to the other client, DECLINE of a free address, REQUEST init-reboot / selecting / renew naming the other client's address, pool cycling, one time step) to depth 5 / 6 (DHCPv4) and 4 / 5 (DHCPv6), the core alphabet to depth 5 (quick) / 6 (thorough) and the full alphabet (also REQUEST for network / broadcast / out-of-pool / never-offered addresses, init-reboot, DECLINE and RELEASE naming free and out-of-pool values and, in DHCPv6, own values under unknown IAIDs, INFORM, REBIND, CONFIRM, wrong server-id, RENEW / REQUEST naming a foreign value) to depth 3 / 4; a pool-cycling step = k fresh clients DISCOVER (and REQUEST) / SOLICIT+REQUEST / SOLICIT+rapid-commit until the server has nothing left to hand out (k <= pool size + 1, so every free-list position is visited; pools have 2-14 usable values) and then RELEASE what they got, a history being extended only if its end state (fingerprint: lease table + circuit-id index + pool snapshot + reference table + client memory + time offsets) is new, (3) seeded random walks of 30-200 steps with 3-4 clients and per-message transport {direct, relayed, relayed+option 82}; every history ends with a 61 s step and a drain of the pool by fresh clients (once per distinct end state); (4) the v4 handlers called from 4-8 goroutines together with the expiry sweep under -race, and late renewals racing the sweep over 800 lapsed leases (child process, so that a crash is a verdict); (5) pool geometries: DHCPv4 pools /30 ... /22 x gateway {first, last, middle, just above / far above host number 255} x reserved ranges {none, head and tail, a window around the gateway} and DHCPv6 address pools /64 ... /126 and prefix pools with delegation lengths below, at, across and above /64 (/48->/56 ... /64->/72, /120->/124, /126->/128; bases with non-zero low bits), plus seeded random geometries; per geometry direct probes (REQUEST init-reboot / selecting / renew, DECLINE, RELEASE; DHCPv6 REQUEST, RENEW, REBIND, CONFIRM, DECLINE, RELEASE) naming the gateway, network, broadcast, reserved addresses and the addresses / prefixes just outside the pool, from a client the server never saw and from a lease holder, then fresh clients walking the free list - completely when the pool has <= 254 (v4) / <= 256 (v6) values or in the thorough tier, otherwise at least 8 clients beyond the number of usable addresses below the gateway (v4) / 300 clients (v6) - then, after a complete walk (quick tier: of a pool with <= 126 (v4) / <= 256 (v6) values), release of one half, expiry of the other and a second complete walk. A case = one distinct history. non-trivial = distinct history containing a REQUEST/RENEW whose address was at that moment bound or offered to a different client, or a request for an own binding after its expiry / release; concurrent part: a run in which an address changed owner or both orders of sweep and renewal occurred; geometry part: a geometry whose probes were sent and whose walk went beyond the gateway's slot or exhausted the pool (v4) / bound at least two fresh clients (v6)")
+	run.Rule("message histories from k<=4 clients against the real DHCPv4 / DHCPv6 handlers on tiny pools (v4 /30 /29 /28, v6 /126 /125 and 2-8 delegated prefixes), interleaved with virtual-time steps {lease/2, lease+1ns, 61 s cleanup tick; 59 s and 1 s in scenarios and walks}: (1) directed minimal scenarios, (2) breadth-first exhaustive exploration - a 15-symbol core alphabet (2 clients x {DISCOVER/SOLICIT, REQUEST, renew, RELEASE, DECLINE, rapid-commit} + hostile REQUEST for a foreign address / the gateway, DECLINE naming the other client's address + time) and an 18-symbol DHCPv4 / DHCPv6 decline/release alphabet (DECLINE and RELEASE of the own value and naming an address leased to / offered but not acknowledged to the other client, DECLINE of a free address, REQUEST init-reboot / selecting / renew naming the other client's address, pool cycling, one time step) to depth 5 / 6 (DHCPv4) and 4 / 5 (DHCPv6), the core alphabet to depth 5 (quick) / 6 (thorough) and the full alphabet (also REQUEST for network / broadcast / out-of-pool / never-offered addresses, init-reboot, DECLINE and RELEASE naming free and out-of-pool values and, in DHCPv6, own values under unknown IAIDs, INFORM, REBIND, CONFIRM, wrong server-id, RENEW / REQUEST naming a foreign value) to depth 3 / 4; a pool-cycling step = k fresh clients DISCOVER (and REQUEST) / SOLICIT+REQUEST / SOLICIT+rapid-commit until the server has nothing left to hand out (k <= pool size + 1, so every free-list position is visited; pools have 2-14 usable values) and then RELEASE what they got, a history being extended only if its end state (fingerprint: lease table + circuit-id index + pool snapshot + reference table + client memory + time offsets) is new, (3) seeded random walks of 30-200 steps with 3-4 clients and per-message transport {direct, relayed, relayed+option 82}; DHCPv4 lease times are 2 min and, in the long-lease configurations (exhaustive core alphabet plus a step of three cleanup ticks, walks, scenarios), 20 min and 1 h - much longer than an offer is held - so that cleanup ticks pass and unrequested offers lapse while leases stay valid (a lease holder that sends DISCOVER again and then stays silent; an OFFER nobody follows up); DHCPv4 clients have hardware addresses of 6 (Ethernet), 7, 16, 8 and 3 octets (named clients in the long-lease configurations, fresh clients everywhere); every history ends with a 61 s step and a drain of the pool by fresh clients (once per distinct end state); (4) the v4 handlers called from 4-8 goroutines together with the expiry sweep under -race, and late renewals racing the sweep over 800 lapsed leases (child process, so that a crash is a verdict); (5) pool geometries: DHCPv4 pools /30 ... /22 x gateway {first, last, middle, just above / far above host number 255} x reserved ranges {none, head and tail, a window around the gateway} and DHCPv6 address pools /64 ... /126 and prefix pools with delegation lengths below, at, across and above /64 (/48->/56 ... /64->/72, /120->/124, /126->/128; bases with non-zero low bits), plus seeded random geometries; per geometry direct probes (REQUEST init-reboot / selecting / renew, DECLINE, RELEASE; DHCPv6 REQUEST, RENEW, REBIND, CONFIRM, DECLINE, RELEASE) naming the gateway, network, broadcast, reserved addresses and the addresses / prefixes just outside the pool, from a client the server never saw and from a lease holder, then fresh clients walking the free list - completely when the pool has <= 254 (v4) / <= 256 (v6) values or in the thorough tier, otherwise at least 8 clients beyond the number of usable addresses below the gateway (v4) / 300 clients (v6) - then, after a complete walk (quick tier: of a pool with <= 126 (v4) / <= 256 (v6) values), release of one half, expiry of the other and a second complete walk. A case = one distinct history. non-trivial = distinct history containing a REQUEST/RENEW whose address was at that moment bound or offered to a different client, or a request for an own binding after its expiry / release; concurrent part: a run in which an address changed owner or both orders of sweep and renewal occurred; geometry part: a geometry whose probes were sent and whose walk went beyond the gateway's slot or exhausted the pool (v4) / bound at least two fresh clients (v6)")
 	run.Assume("PoolConfig.ReservedStart / ReservedEnd = N excludes the first / last N host numbers from the serving pool (the field's own documentation): a reserved address handed out is judged as outside the serving pool (class 'reserved'); the base address of a DHCPv6 address pool is its network (subnet-router anycast) address; a delegated prefix must have the configured delegation length, no host bits and lie inside the prefix pool, and prefixes held by different clients at the same moment must not overlap")
 	run.Assume("client identity is the MAC (v4) / DUID (v6); a circuit-id identifies exactly one client (two MACs never share an option-82 circuit-id)")
 	run.Assume("local-pool mode: no Nexus client, HTTP allocator, RADIUS, QoS or NAT manager is attached; the DHCPv6 server uses its legacy AddressPool / PrefixPool (not the integrated allocator)")
 	run.Assume("a binding enters the reference table only through an observed ACK / Reply carrying the value; its expiry is the reply's own lease time / valid lifetime (unexpired = now < expiry); replies are decoded with the insomniacslk/dhcp library, not with the code under test")
-	run.Assume("an OFFER / Advertise counts as outstanding until ACK, NAK, RELEASE, DECLINE or one lease time (DESIGN 5b); an offer of the address the client is bound to at that moment adds nothing to that binding (an OFFER does not extend a lease); the property does not bound how long a server may keep an offered address reserved, so a value that was re-offered to its former holder after the binding lapsed creates no 'available again' obligation")
+	run.Assume("an OFFER / Advertise counts as outstanding (nobody else may be acknowledged the value) until ACK, NAK, RELEASE, DECLINE or one lease time (DESIGN 5b) - in DHCPv4 at most 2 min, the hold time the server documents, so that with lease times of hours a server that reclaims unrequested offers after minutes is not flagged; an offer of the address the client is bound to at that moment adds nothing to that binding (an OFFER does not extend a lease); a value that was re-offered to its former holder after the binding lapsed is in the offered state and creates no 'expired' obligation")
+	run.Assume("DHCPv4: an OFFER its client never follows up (no REQUEST, RELEASE, DECLINE, no further DISCOVER) must lapse ('a released or expired one becomes available again'): one full lease time after the OFFER - the longest an offer could reasonably be honoured - plus one cleanup tick, the address must be obtainable by a fresh client when the pool is drained, unless it was handed out to somebody else since (the reservation had then ended), somebody is entitled to it, or it was named in a DECLINE; between the 2 min window and the lease time nothing is required. Not judged for DHCPv6 Advertise")
 	run.Assume("'available again' is judged by draining the pool with fresh clients after expiry + one cleanup tick (v4: the real cleanup loop runs on the virtual clock; v6: any reclaim reachable from the message handlers; a reclaim that lived only in goroutines started by Start() would not be observed - none exists)")
 	run.Assume("a DECLINE quarantines the value only if the decliner held it or was offered it (DESIGN 5b); a DHCPv6 Decline names addresses only, a delegated prefix of the same client stays bound")
 	run.Assume("the value named in a DECLINE / RELEASE / REQUEST is classified (own-leased, own-offered, leased-to-other, offered-to-other, free, declined, outside-pool ...) from the reference table only; a DECLINE or RELEASE that does not name the sender's own value (or names it under an IAID the server never gave it) creates no obligation and the server may keep or end the sender's own binding: which it did is read from its lease table right after the message (kept = the binding goes on and keeps being judged, ended = nothing further is required); an OFFER / Advertise of a value on which another client holds an unexpired acknowledged binding is a violation (offer-unique), an OFFER of a value that is merely offered to another client is not (a server need not reserve what it offers; judged when one of them is acknowledged)")
@@ -123,6 +124,16 @@ func setFloors() {
 	run.Floor("geom_v6_delegated_prefixes_compared_pairwise", 800)
 	run.Floor("geom_v6_walks_reaching_exhaustion", 12)
 	run.Floor("geom_v6_second_walks_after_release_and_expiry", 12)
+	// lease times much longer than the offer hold: cleanup ticks passed under valid leases, lease holders re-DISCOVERed and
+	// stayed silent beyond the offer window; unrequested offers lapsed (also of clients with non-Ethernet hardware addresses)
+	// and the values were handed out again
+	run.Floor("v4_cleanup_ticks_under_unexpired_lease_longer_than_offer_window", 2000)
+	run.Floor("v4_lease_holder_discover_never_requested_older_than_offer_window_lease_still_valid", 40)
+	run.Floor("v4_lease_holder_discover_never_requested_older_than_offer_window_non_ethernet", 20)
+	run.Floor("offers_abandoned_until_lapse", 500)
+	run.Floor("v4_offers_abandoned_until_lapse_non_ethernet_hwaddr", 100)
+	run.Floor("available_again_offer-lapsed_value_handed_out_again", 400)
+	run.Floor("v4_msg_non_ethernet_hwaddr", 20000)
 	run.Floor("distinct_message_classes", 60)
 	run.Floor("distinct_cycle_episodes", 300)
 }
